@@ -761,10 +761,19 @@ pub fn tape_machine(is128: bool, fastload: bool, fill: &mut crate::rng::Rng) -> 
 // ------------------------------------------------------------------------------------------------
 // Driving helpers shared by the monitors
 // ------------------------------------------------------------------------------------------------
-pub type MemTap = Tap<BufferCursor<Vec<u8>>>;
+pub type MemTap = Tap<crate::host::DynAsset>;
 
+/// The TAP image is handed to the deck through assets of different read behaviour: the asset
+/// contract lets `read` return fewer bytes than asked for, so the waveform must not depend on it.
 pub fn mem_tap(blocks: &[Vec<u8>]) -> MemTap {
-    Tap::from_asset(BufferCursor::new(tap_image(blocks))).expect("Tap::from_asset")
+    static TURN: std::sync::atomic::AtomicUsize = std::sync::atomic::AtomicUsize::new(0);
+    let t = TURN.fetch_add(1, std::sync::atomic::Ordering::Relaxed);
+    let img = tap_image(blocks);
+    let asset = match t % 6 {
+        0 | 1 => crate::host::DynAsset(Box::new(BufferCursor::new(img))),
+        k => crate::host::DynAsset(Box::new(crate::host::ShortRead::new(img, [1usize, 3, 100, 509][k - 2]))),
+    };
+    Tap::from_asset(asset).expect("Tap::from_asset")
 }
 
 /// Emulated time counter for a machine (frames are detected by the frame clock wrapping)
